@@ -5,6 +5,7 @@ import HidVerif.Sphinx.Monitor
 import HidVerif.Compiler.Templates
 import HidVerif.Gen.Funcs
 import HidVerif.Hid.Fold
+import HidVerif.Hid.Lexer
 open HidVerif HidVerif.Sphinx
 
 def bytesToLines (b : ByteArray) : List (List Char) := Id.run do
@@ -49,6 +50,21 @@ def asmCheck (l : Asm.Loaded) : String :=
       match (List.range want.length).find? (fun i => l.prog.code[B + i]? != want[i]?) with
       | some i => s!"mismatch:instr{i}"
       | none => "ok"
+
+def renderTok : Hid.Lex.Tok → String
+  | .str bs => "str " ++ "".intercalate (bs.map VM.hex2)
+  | .int v => s!"int {v}"
+  | .chr b => s!"chr {b}"
+  | .ident n fl => s!"ident {match fl with | .none => "-" | .you => "@" | .defeat => "!"} {" ".intercalate (n.map toString)}"
+  | .enum n => s!"enum {n}"
+
+def renderLex (id : String) (src : List (List Nat)) : String :=
+  let (toks, ending) := Hid.Lex.lex src
+  let lines := toks.map (fun x => s!"{x.start.line}:{x.start.col}-{x.stop.line}:{x.stop.col} {renderTok x.tok}")
+  let e := match ending with
+    | .eof c => s!"#eof {c.line}:{c.col}"
+    | .error c => s!"#error {c.line}:{c.col}"
+  "\n".intercalate ([s!"#case {id}"] ++ lines ++ [e])
 
 partial def toCExpr : Hid.Sexp → Except String Hid.CExpr
   | .list [.atom "lit", .atom v] => match v.toInt? with | some i => .ok (.lit i) | none => .error "bad literal"
@@ -126,6 +142,27 @@ def main (argv : List String) : IO UInt32 := do
     let b ← IO.FS.readBinFile file
     let c : Case := { id := "vm", asm := bytesToLines b, args := args.map (fun a => a.toUTF8.data.toList.map (·.toNat)) }
     IO.println (runCase c)
+    return 0
+  | ["lex", file] =>
+    -- token streams of the lexer model; input: `#case id` then one line of space-separated code points per source line
+    let txt ← IO.FS.readFile file
+    let mut cur : Option (String × List (List Nat)) := none
+    let flush (c : Option (String × List (List Nat))) : IO Unit :=
+      match c with
+      | none => pure ()
+      | some (id, ls) => IO.println (renderLex id ls.reverse)
+    for l in txt.splitOn "\n" do
+      if l.startsWith "#case " then
+        flush cur
+        cur := some ((l.drop 6).toString, [])
+      else if l == "#end" then
+        flush cur; cur := none
+      else match cur with
+        | some (id, ls) =>
+          let nums := (l.splitOn " ").filterMap (fun t => t.toNat?)
+          cur := some (id, nums :: ls)
+        | none => pure ()
+    flush cur
     return 0
   | ["fold", file] =>
     -- one constant expression per line: prints the exact (compile-time) value and the
